@@ -516,6 +516,66 @@ static bool fzm_looks_numeric(const uint8_t *p, size_t n)
 }
 
 /*
+ * fzm_flip_collection: change the YAML node kind of one flow collection in place:
+ * a sequence with an even number of items [a, b, c, d] becomes the mapping
+ * {a: b, c: d}; a mapping {a: b, c: d} becomes the sequence [a, b, c, d].
+ * The size does not change.  Returns the size or 0 if nothing was found.
+ */
+static size_t fzm_flip_collection(uint8_t *d, size_t size, size_t skip)
+{
+    size_t start = skip + fzm_below((uint32_t)(size - skip)), open = size, close = size;
+    size_t seps[256], nseps = 0;
+    int depth = 0;
+    bool to_map;
+
+    for (size_t k = 0; k < size - skip; ++k) {		/* next '[' or '{' at or after a random position, cyclic */
+	size_t i = skip + (start - skip + k) % (size - skip);
+
+	if (d[i] == '[' || d[i] == '{') {
+	    open = i;
+	    break;
+	}
+    }
+    if (open == size)
+	return 0;
+    to_map = d[open] == '[';
+    for (size_t i = open; i < size; ++i) {
+	uint8_t ch = d[i];
+
+	if (ch == '[' || ch == '{') {
+	    ++depth;
+	} else if (ch == ']' || ch == '}') {
+	    if (--depth == 0) {
+		close = i;
+		break;
+	    }
+	} else if (depth == 1 && nseps < 256) {
+	    if (ch == ',' || (!to_map && ch == ':' && i + 1 < size && (d[i + 1] == ' ' || d[i + 1] == '\n')))
+		seps[nseps++] = i;
+	}
+    }
+    if (close == size || nseps == 0)
+	return 0;
+    if (to_map) {
+	if (nseps % 2 == 0)		/* odd number of items: leave the last one as a key without value */
+	    --nseps;
+	for (size_t k = 0; k < nseps; k += 2) {
+	    if (seps[k] + 1 >= size || (d[seps[k] + 1] != ' ' && d[seps[k] + 1] != '\n'))
+		return 0;		/* a flow mapping needs ": " */
+	    d[seps[k]] = ':';
+	}
+	d[open] = '{';
+	d[close] = '}';
+    } else {
+	for (size_t k = 0; k < nseps; ++k)
+	    d[seps[k]] = ',';
+	d[open] = '[';
+	d[close] = ']';
+    }
+    return size;
+}
+
+/*
  * fz_text_mutate: one structure-aware mutation of a text input.  `skip' leading
  * bytes (selector byte) are left to libFuzzer's own mutations.  Extra keyword
  * table supplied by the target.
@@ -539,6 +599,14 @@ static size_t fz_text_mutate(uint8_t *d, size_t size, size_t maxsize, unsigned s
 	return LLVMFuzzerMutate(d, size, maxsize);
     memcpy(work, d, size);
     d = work;
+    if (fzm_below(8) == 0) {
+	nsize = fzm_flip_collection(d, size, skip);
+	if (nsize != 0 && nsize <= maxsize) {
+	    memcpy(orig, work, nsize);
+	    return nsize;
+	}
+	nsize = 0;
+    }
     lines = fzm_below(3) == 0;
     n = fzm_split(d, skip, size, lines, spans, 512);
     if (n == 0)
